@@ -160,13 +160,15 @@ econf_newKeyFile_with_options(econf_file **result, const char *options) {
   char* begin_opt = in_opt;
   char* o_opt;
   while ((o_opt = strsep(&in_opt, ";")) != NULL) {
-    if (strcmp(o_opt, "JOIN_SAME_ENTRIES=1") == 0) {
-      (*result)->join_same_entries = true;
+    if (strcmp(o_opt, "JOIN_SAME_ENTRIES=1") == 0 ||
+	strcmp(o_opt, "JOIN_SAME_ENTRIES=0") == 0) {
+      (*result)->join_same_entries = o_opt[strlen(o_opt)-1] == '1';
       continue;
     }
 
-    if (strcmp(o_opt, "PYTHON_STYLE=1") == 0) {
-      (*result)->python_style = true;
+    if (strcmp(o_opt, "PYTHON_STYLE=1") == 0 ||
+	strcmp(o_opt, "PYTHON_STYLE=0") == 0) {
+      (*result)->python_style = o_opt[strlen(o_opt)-1] == '1';
       continue;
     }
 
